@@ -12,6 +12,7 @@ import (
 	"runtime"
 	"sync"
 	"sync/atomic"
+	"time"
 
 	"github.com/cloudflare/circl/oprf"
 
@@ -559,6 +560,15 @@ func c17Batch(run *c17Run, G int, seeds [][]byte, keyVal *oprf.PrivateKey, key i
 		pkEncs[j], _ = v.Public().MarshalBinary()
 	}
 	bi := batched.NewBasicBatchedIssuer(batchIssuer1{i1}, batchIssuer1{i1b}, batchIssuer2{i2})
+	if G >= 64 {
+		// wide repetition: the configured issuers are wrapped so that callers MEET inside the batch issuer - the first
+		// TokenKeyID call of each goroutine's first batch waits until most of the others have arrived (or 400 ms have
+		// passed: the wait only shapes the schedule, no verdict depends on it). Whatever the batch issuer holds while it
+		// consults its issuers is then held by all of them at once.
+		m := &meeting{want: G * 3 / 4}
+		bi = batched.NewBasicBatchedIssuer(meetIssuer{batchIssuer1{i1}, m}, meetIssuer{batchIssuer1{i1b}, m}, meetIssuer{batchIssuer2{i2}, m})
+		c.Class("batch_callers_meet_inside_the_issuer")
+	}
 	wants := make([][]byte, G)
 	for gi := 0; gi < G; gi++ {
 		r := core.NewRand(int64(gi), string(seeds[gi]))
@@ -867,4 +877,43 @@ func keyRSA(k interface{}) *rsa.PrivateKey {
 		primes[i] = new(big.Int).Set(p)
 	}
 	return &rsa.PrivateKey{PublicKey: rsa.PublicKey{N: new(big.Int).Set(o.N), E: o.E}, D: new(big.Int).Set(o.D), Primes: primes}
+}
+
+// meeting lets callers wait for each other inside a callback (bounded wait).
+type meeting struct {
+	mu      sync.Mutex
+	arrived int
+	want    int
+	open    chan struct{}
+	once    sync.Once
+}
+
+func (m *meeting) wait() {
+	m.once.Do(func() { m.open = make(chan struct{}) })
+	m.mu.Lock()
+	m.arrived++
+	n := m.arrived
+	m.mu.Unlock()
+	if n == m.want {
+		close(m.open)
+		return
+	}
+	if n > m.want {
+		return
+	}
+	select {
+	case <-m.open:
+	case <-time.After(400 * time.Millisecond):
+	}
+}
+
+// meetIssuer makes the first TokenKeyID call of every goroutine-batch wait at the meeting.
+type meetIssuer struct {
+	batched.Issuer
+	m *meeting
+}
+
+func (i meetIssuer) TokenKeyID() []byte {
+	i.m.wait()
+	return i.Issuer.TokenKeyID()
 }
